@@ -527,6 +527,35 @@ def in_place_models(ctx, tmp):
                     break
 
 
+def big_missing_values(ctx, tmp):
+    """64-bit whole numbers around 2^53 and 2^63 with a MissingValue among them: exactly the cells holding the missing value are missing - its neighbours (which
+    share its nearest decimal) are present, with their exact values"""
+    B = 2 ** 53
+    sets = [[B - 1, B, B + 1, B + 2, B + 3, 5], [-(B + 1), -B, -(B + 2), 0, B + 1, B], [2 ** 62 + 1, 2 ** 62, 2 ** 62 + 3, 2 ** 62 + 2, 7, -7], [B + 1, B + 1, B, B, B + 2, B + 2]]
+    for vals in sets:
+        for mv in sorted(set(vals))[:4] + [vals[2]]:
+            for tname in ("Integer", "Positive Integer") if min(vals) >= 0 else ("Integer",):
+                arr = numpy.ma.array(numpy.array(vals, dtype=numpy.int64).reshape(2, 3), mask=numpy.zeros((2, 3), dtype=bool))
+                path = os.path.join(tmp, "bigmv.nc")
+                make_var_file(path, (2, 3), arr, vtype="i8")
+                out = read_impl(path, "v", tname, mv)
+                ctx.case("big missing %r %r %s" % (vals, mv, tname), sample=None)
+                ctx.count("big_missing_value_reads")
+                desc = {"variable": "int64 %r on a 2 x 3 grid" % (vals,), "MissingValue": mv, "DataType": tname}
+                if out[0] != "ok":
+                    ctx.fail("reading 64-bit whole numbers %r with MissingValue = %d fails: %r" % (vals, mv, out[1:]), desc)
+                    continue
+                r = out[1]
+                got_mask = numpy.ma.getmaskarray(r).ravel().tolist()
+                want_mask = [v == mv for v in vals]
+                got_vals = [int(x) for x in numpy.ma.getdata(r).ravel().tolist()]
+                if got_mask != want_mask:
+                    ctx.fail("MissingValue = %d over the cells %r: missing are the cells %r; exactly the cells holding the missing value are %r" % (
+                        mv, vals, [i for i, m in enumerate(got_mask) if m], [i for i, m in enumerate(want_mask) if m]), desc)
+                elif any(g != v for g, v, m in zip(got_vals, vals, want_mask) if not m):
+                    ctx.fail("MissingValue = %d over the cells %r: the present cells are read as %r" % (mv, vals, got_vals), desc)
+
+
 def run(ctx):
     ctx.check_proofs(["MPilot.Props.C18", "MPilot.Props.C18Layout"])
     model = common.Model()
@@ -772,6 +801,7 @@ def run(ctx):
     programs(ctx, tmp)
     layouts(ctx, model, tmp, ctx.budget(40, 1500))
     in_place_models(ctx, tmp)
+    big_missing_values(ctx, tmp)
     grid_ladder(ctx, tmp)
     bare_relative_names(ctx, tmp)
     return ctx.finish(
